@@ -80,3 +80,43 @@ Print Assumptions C11_intern_refines_map.
 Print Assumptions C11_identity_iff_equal.
 Print Assumptions C11_run_ops_never_stuck.
 Print Assumptions C11_run_ops_refines_spec.
+
+(* ======================================================================================================== *)
+(* R2G block (added; see notes/R2G.md): hash::FnvHasher::{default,write,finish}, string_store::find_index and the
+   growth test of ObjStringStore::insert, TRANSLATED from the current hash.rs / vm.rs into gen/PureIntern.v by
+   translator/rust2gallina.py on every run, equal the hand-written models (Num.fnv_*, Intern.probe / find_index /
+   load_limit).  A change of one of these Rust functions changes the generated text and breaks the NAMED statement. *)
+From Coq Require Import ZArith.
+From YVGen Require PureIntern.
+From YV Require Num R2G R2GProofs PureEquivIntern.
+Theorem C11_gen_fnv_write_eq_model : forall l h, (0 <= h < Num.two64)%Z ->
+  PureIntern.FnvHasher_write h l = R2G.Val (Num.fnv_write h l).
+Proof. exact PureEquivIntern.gen_fnv_write_eq_model. Qed.
+Theorem C11_gen_fnv_hash_eq_model : forall l,
+  R2G.rbind (PureIntern.FnvHasher_write PureIntern.FnvHasher_default l) (fun h =>
+  R2G.rbind (PureIntern.FnvHasher_write h [Byte.xff]) (fun h => R2G.Val (PureIntern.FnvHasher_finish h)))
+  = R2G.Val (Num.fnv_hash l).
+Proof. exact PureEquivIntern.gen_fnv_hash_eq_model. Qed.
+(* the probe loop: for EVERY fuel, table, key and mask (a fault of the generated code = the model's None) *)
+Theorem C11_gen_find_index_eq_model : forall fuel es h s m,
+  (Z.of_nat (length es) < 2 ^ 64)%Z ->
+  R2GProofs.to_opt (PureIntern.find_index fuel (PureEquivIntern.table_view es) (Z.of_N h, s) (Z.of_N m)) =
+  option_map Z.of_nat (probe fuel es h s m (N.land h m)).
+Proof. exact PureEquivIntern.gen_find_index_eq_model. Qed.
+(* BOUNDED CHECK (the float expression is evaluated, not reasoned about): every capacity up to 4096 and every
+   power of two up to 2^62; the general statement is in theories/PureEquivIntern.v *)
+Theorem C11_gen_insert_growth_test_eq_model_partial : forall es size,
+  In (R2G.list_len es) PureEquivIntern.checked_caps -> (0 <= size)%Z -> (size + 1 < 2 ^ 64)%Z ->
+  PureIntern.insert_growth_test es size =
+  R2G.Val (Nat.ltb (load_limit (Z.to_nat PureEquivIntern.ln) (Z.to_nat PureEquivIntern.ld) (length es))
+                   (Z.to_nat size + 1)).
+Proof. exact PureEquivIntern.gen_insert_growth_test_eq_model_partial. Qed.
+(* the constant the generated test uses is the one the theorems above are instantiated with *)
+Theorem C11_gen_load_consts : Z.to_nat PureEquivIntern.ln = ln /\ Z.to_nat PureEquivIntern.ld = ld.
+Proof. split; reflexivity. Qed.
+Print Assumptions C11_gen_fnv_write_eq_model.
+Print Assumptions C11_gen_fnv_hash_eq_model.
+Print Assumptions C11_gen_find_index_eq_model.
+Print Assumptions C11_gen_insert_growth_test_eq_model_partial.
+Print Assumptions C11_gen_load_consts.
+(* ================================================ end of the R2G block ================================= *)
